@@ -557,6 +557,21 @@ def run_c14(tier, seed, wd, info, verdict):
         scs.append(sc)
         meta[sid] = dict(conflicts=conflicts, n=n, t=t, routings=len(routings))
     by = run_parallel(scs, wd, "c14", workers=len(scs))
+    # the same routings on clusters of REAL dirk binaries (duties sent by client c1 over TLS to each process)
+    bscs = []
+    for sc_ in scs[:1 if tier == "quick" else 3]:
+        keep = 30 if tier == "quick" else 400
+        duties = [d for d in sc_["duties"] if int(d["duty"].split(":")[0][1:]) < keep]
+        bsc = dict(sc_, id=sc_["id"].replace("C14-", "C14-bin-"), account="DW/c14b", duties=duties)
+        bscs.append(bsc)
+        meta[bsc["id"]] = dict(meta[sc_["id"]], conflicts=[c_ for c_ in meta[sc_["id"]]["conflicts"] if int(c_[0].split(":")[0][1:]) < keep])
+    with ThreadPoolExecutor(max_workers=max(1, len(bscs))) as ex:
+        bouts = list(ex.map(lambda a: run_dkgdrv([a[1]], wd, "c14bin%d" % a[0], dirk=build_dirk()), enumerate(bscs)))
+    for evs_, rc_, err_ in bouts:
+        if rc_ != 0:
+            raise Inconclusive("dkgdrv (duties) against dirk binaries exited %s: %s" % (rc_, err_[-400:]))
+        by.update(split_scenarios(evs_))
+    scs = scs + bscs
     lines, index = [], []
     npart, nvalid = 0, 0
     for sc in scs:
@@ -647,7 +662,7 @@ def replay(prop, path):
     wd = workdir(prop + "-replay")
     try:
         sc = obj["scenario"]
-        evs, rc, err = run_dkgdrv([sc], wd, "replay", dirk=build_dirk() if str(sc.get("id", "")).startswith("C12-bin-") else None)
+        evs, rc, err = run_dkgdrv([sc], wd, "replay", dirk=build_dirk() if "-bin-" in str(sc.get("id", "")) else None)
         lines = []
         if obj["module"] == "ClusterTrace":
             lines.append(dict(ev="Begin", sc=sc["id"], n=sc["n"], t=sc["t"]))
